@@ -60,7 +60,7 @@ type driver struct {
 	popped             sonic.Slot
 	orig               map[int]int // seq -> index at Save time
 	offsetUsed         bool
-	spurious           int
+	oc                 map[string]int
 	maxslots, maxbytes int
 }
 
@@ -154,10 +154,22 @@ func (d *driver) call(g Ev, e *Ev) {
 		var ok bool
 		var err error
 		if d.sq != nil {
-			within := d.sq.Size() < d.maxslots && d.sq.Bytes()+d.tail.Length <= d.maxbytes*d.f
+			slotsFull := d.sq.Size() >= d.maxslots
+			bytesFull := d.sq.Bytes()+d.tail.Length > d.maxbytes*d.f
 			ok, err = d.sq.Push(d.tailSeq, d.tail)
-			if err != nil && within {
-				d.spurious++
+			switch {
+			case ok:
+				d.oc["push_ok"]++
+			case err == nil:
+				d.oc["push_duplicate_refused"]++
+			case bytesFull && !slotsFull:
+				d.oc["push_error_byte_limit_only"]++
+			case slotsFull && !bytesFull:
+				d.oc["push_error_slot_limit_only"]++
+			case slotsFull && bytesFull:
+				d.oc["push_error_both_limits"]++
+			default:
+				d.oc["push_error_within_both_limits"]++
 			}
 		} else {
 			var s sonic.Slot
@@ -189,12 +201,23 @@ func (d *driver) call(g Ev, e *Ev) {
 				d.off.Reset()
 			}
 		}
+		if !ok {
+			d.oc["pop_absent"]++
+		}
 		if ok {
 			e.Ok = 1
 			e.Idx, e.Len, e.N = d.units(s.Index), d.units(s.Length), d.units(s.Length)
 			d.popped = s
+			d.oc["pop_ok"]++
 			if s.Index < d.orig[g.Seq] {
 				d.offsetUsed = true
+				d.oc["pop_ok_at_shifted_index"]++
+			}
+			if d.b.ReadLen() > 0 || d.b.WriteLen() > 0 {
+				d.oc["pop_ok_with_bytes_behind_save_area"]++
+			}
+			if d.sq != nil && d.sq.Size() == 0 {
+				d.oc["pop_ok_draining"]++
 			}
 			e.Slotbytes = d.tokens(d.b.SavedSlot(s))
 		}
@@ -277,7 +300,7 @@ func Run(in, out, mode string) error {
 		return err
 	}
 	sum := tr.Summary{Component: "slotseq"}
-	spurious := 0
+	oc := map[string]int{}
 	err = tr.Behaviours(in, func(idx int, raw json.RawMessage) error {
 		var steps []Ev
 		if err := json.Unmarshal(raw, &steps); err != nil {
@@ -287,7 +310,7 @@ func Run(in, out, mode string) error {
 			return fmt.Errorf("behaviour must start with New")
 		}
 		sum.Scenarios++
-		d := &driver{f: f}
+		d := &driver{f: f, oc: oc}
 		for i, g := range steps {
 			if g.Ev == "Pop" && d.off != nil {
 				if _, has := d.handles[g.Seq]; !has {
@@ -323,14 +346,13 @@ func Run(in, out, mode string) error {
 		if d.offsetUsed {
 			sum.Nontrivial++
 		}
-		spurious += d.spurious
 		return nil
 	})
 	if err != nil {
 		return err
 	}
 	sum.Events = w.N
-	sum.Notes = map[string]any{"push_errors_within_both_limits": spurious, "bytes_per_token": f}
+	sum.Notes = map[string]any{"outcomes": oc, "bytes_per_token": f}
 	if err := w.Close(); err != nil {
 		return err
 	}
